@@ -229,8 +229,22 @@ func runHistory(run *ev.Run, caseIdx int, router int) {
 			if m.challenge == "" && verKind == "right" {
 				verifier = ""
 			}
+			// one exchange in eight runs while a storage method fails (a failed call has no effect in vstore): C04 does
+			// not judge the answer of that request (C10 does), but whatever it answers, a code that yielded tokens is
+			// consumed for the model - a later replay must be refused even if the storage could not delete the request.
+			faulted := ""
+			if r.IntN(8) == 0 {
+				faulted = pick(r, "DeleteAuthRequest", "DeleteAuthRequest", "CreateAccessToken", "CreateAccessAndRefreshTokens", "SigningKey", "AuthRequestByCode", "GetClientByClientID", "AuthorizeClientIDSecret")
+				w.Store.Arm(&vstore.FaultPlan{Method: faulted, Kind: vstore.FaultKind(r.IntN(int(vstore.NumFaultKinds)))})
+			}
 			resp := w.ExchangeCode(router, code, uri, verifier, auth)
-			detail := fmt.Sprintf("code=%s(of %s/%s) presenter=%s cred=%s uri=%s verifier=%s challenge=%s", codeKind, m.id, m.client, presenter, credKind, uriKind, verKind, m.method)
+			if faulted != "" {
+				if w.Store.Fired() == 0 {
+					faulted = ""
+				}
+				w.Store.Arm(nil)
+			}
+			detail := fmt.Sprintf("code=%s(of %s/%s) presenter=%s cred=%s uri=%s verifier=%s challenge=%s fault=%s", codeKind, m.id, m.client, presenter, credKind, uriKind, verKind, m.method, faulted)
 			log = append(log, opLog{"exchange", detail, resp.Brief()})
 			run.Eval()
 			if resp.Panic != nil {
@@ -286,6 +300,17 @@ func runHistory(run *ev.Run, caseIdx int, router int) {
 				continue
 			}
 			// no reason to refuse
+			if faulted != "" {
+				run.Count("outcome", "under_storage_fault:"+faulted+":"+map[bool]string{true: "tokens", false: "refused"}[success])
+				if !success {
+					m.failed = true
+					continue
+				}
+				// tokens were issued although a storage call failed (C10 judges that); for C04 the code is now consumed
+				run.Observed("fault-during-exchange")
+				m.consumed = true
+				continue
+			}
 			if !success {
 				if m.challenge == "" && verifier != "" {
 					// a code_verifier for a request that never had a challenge: refusing is legal, so is ignoring it
@@ -333,7 +358,8 @@ func main() {
 	run := ev.Start("C04", "exploration")
 	run.SetRule("random histories (5-40 ops) of start/login/callback/exchange over clients {web,web2 basic; post; native public; jwt private_key_jwt}, each executed on both routers in a fresh world; an exchange is non-trivial; distinct = distinct vectors (router, code kind, client auth method, same-client, credential kind, redirect_uri kind, verifier kind/challenge method, consumed)")
 	run.Assume("vstore policy: DeleteAuthRequest removes the request and its codes; AuthRequestByCode fails for unknown codes",
-		"after a failed attempt on a code later success is grey (burning on failure would be legal)")
+		"after a failed attempt on a code later success is grey (burning on failure would be legal)",
+		"one exchange in eight runs under an injected storage-method fault; its own answer is C10's business, but a code that yielded tokens under the fault counts as consumed and a later replay must be refused")
 	run.Mandatory("success:provider", "success:legacy")
 	n := run.N(1500, 40000)
 	if rc := run.ReplayCase(); rc >= 0 {
